@@ -237,7 +237,7 @@ def scrub_case(name, pos, bad):
     res.orders[(1, 0, 0, 0)] = (v, e)
     out[name] = [res]
     out["other_none_observable"] = None
-    out["FL_light"] = None
+    out["FL_light" if name != "FL_light" else "F2_light"] = None  # an observable switched off next to the one under test
     out["xgrid"] = {"grid": [0.1, 1.0], "log": True}
     new = r.replace_nans_with_0(out)
     nv, ne = new[name][0].orders[(1, 0, 0, 0)]
